@@ -2,7 +2,7 @@
 import ast
 from vlib.model import AnalysisError, dump, kwarg, call_name, FuncInfo
 from vlib.cfg import cfg_of, node_calls, node_exprs
-from vlib.flow import dominators
+from vlib.flow import dominators, reachable_avoiding
 from vlib import prov, q, shape, spec
 
 META = {
@@ -159,11 +159,28 @@ def classify(prog, fi, g, dom, n, c):
             if types == ["TypeError"]:
                 return "argument mismatch", spec.CODE_PARAMS
             return "exception raised by the method", spec.CODE_INTERNAL
+        if name == "do_POST" and h.type is not None:
+            # a handler for connection failures only (socket.timeout, OSError, ...): nothing raised by a registered method reaches do_POST
+            # (C05.3), and the dispatcher lets nothing escape (C02.1), so what such a handler catches comes from reading the request
+            # off the connection - a request that was never received is in none of the property's failure classes
+            from vlib import narrow as _nw
+            _tn = [dump(x) for x in (h.type.elts if isinstance(h.type, ast.Tuple) else [h.type])]
+            _io = {"socket.timeout": "TimeoutError", "socket.error": "OSError", "socket.herror": "OSError", "socket.gaierror": "OSError",
+                   "IOError": "OSError", "EnvironmentError": "OSError"}
+            if _tn and all(_nw.is_sub(_io.get(x, x), "OSError") for x in _tn):
+                return "connection failure while the request is received", "any"
         if name == "do_POST" and not try_calls(prog, fi, t, lambda r, cc: call_name(cc) in ("read", "_marshaled_dispatch", "decode_request_content")):
             # a guard around the inspection of the HTTP request itself (headers), not around reading, decoding or dispatching the
             # body: no JSON-RPC failure class of the property applies to a request whose body was never looked at
             return "HTTP request rejected before its body is read", "any"
         return "exception around dispatch / conversion / request handling", spec.CODE_INTERNAL
+    if name == "do_POST" and not hs:
+        # a rejection decided on the HTTP request alone: no body read, decoding or dispatch can come before it or after it
+        body_ops = [x.id for x in g.live_nodes() for cc in node_calls(x)
+                    if call_name(cc) in ("_marshaled_dispatch", "decode_request_content") or dump(cc.func) == "self.rfile.read"]
+        if body_ops and not any(n.id in reachable_from(g, b) for b in body_ops) and \
+                not (set(body_ops) & reachable_avoiding(g, n.id, set(), lambda l: l != "exc")):
+            return "HTTP request rejected before its body is read", "any"
     if name == "validate_request":
         return "structurally invalid request", spec.CODE_INVALID
     if name == "_unmarshaled_dispatch":
@@ -370,6 +387,23 @@ def check(ck):
                                % (dump(name_e), [dump(b.test) for b in guards]), q.loc(r, m))
     if n3 < 2:
         raise AnalysisError("anchor vanished: instance attribute lookups in the server module (found %d)" % n3)
+    # ... and the introspection methods inherited from SimpleXMLRPCDispatcher run code of the registered instance (system_listMethods
+    # calls its _listMethods() or reads every attribute of it - properties included; system_methodHelp / system_methodSignature resolve
+    # the name without the underscore rule): the dispatcher's own code never calls them, they are reachable only as registered
+    # functions.  Likewise dir() / vars() / inspect.getmembers() of the instance evaluate nothing by themselves except getmembers.
+    INTROSPECT = ("system_listMethods", "system_methodHelp", "system_methodSignature", "system_multicall", "_listMethods", "_methodHelp",
+                  "list_public_methods", "getmembers")
+    for fi in prog.module_funcs(SRV):
+        if fi.cls is None or fi.cls.name != DISP:
+            continue
+        g = cfg_of(fi)
+        for n in g.live_nodes():
+            for c in node_calls(n):
+                if call_name(c) in INTROSPECT:
+                    ck.bad("C05.3", "%s: `%s`" % (q.fn(fi), dump(c)[:50]),
+                           "the dispatcher calls `%s`, which runs code of the registered instance (its _listMethods hook, or every property "
+                           "of it) while a request is being resolved or rejected: a request for an unknown or private name then invokes "
+                           "registered code, and what that code raises replaces the standard error" % dump(c.func), q.loc(fi, n))
 
     # ---- C05.4 message of -32603 -----------------------------------------------------------
     for site in all_sites:
@@ -541,6 +575,8 @@ def check(ck):
     # ---- C05.10 the per-request configuration copy is complete (shared with C13.2) --------------------------------------------
     from rules import c13 as _c13c
     _common.import_rules(ck, _c13c, {"C13.2": "C05.10"})
+    from rules import c02 as _c02e5
+    _common.import_rules(ck, _c02e5, {"C02.1": "C05.10"})      # (an exception escaping the dispatcher is answered -32603 / HTTP 500 whatever the failure class)
     ck.floor("C05.10", 5)
 
     # ---- C05.11 transport of the error reply (shared with C02.6 / C17.3) -------------------------------------------------------
